@@ -104,6 +104,22 @@ def run_for(prop: str, *, jobs: int | None = None, verbose: bool = True) -> int:
     if bad:
         print(f"ANALYSIS-ERROR property={prop}: checker self-test failed ({', '.join(r['name'] for r in bad)})")
         return 2
+    # behaviour-preserving rewrites of the whole tree (re-emitted source, renamed locals, suppress -> try/except, inverted if/else): must stay silent
+    try:
+        sys.path.insert(0, str(Path(__file__).resolve().parent.parent / "tools"))
+        import robustness  # type: ignore[import-not-found]
+
+        overlay = robustness.build_overlay("all")
+        _p, code, lines = robustness._run((prop, overlay))
+    except Exception as exc:  # noqa: BLE001
+        print(f"ANALYSIS-ERROR property={prop}: rewrite self-test could not run ({exc})")
+        return 2
+    print(f"[{prop}] self-test: behaviour-preserving rewrite of the tree -> exit {code}")
+    if code != 0:
+        for ln in lines:
+            print("    ", ln)
+        print(f"ANALYSIS-ERROR property={prop}: the check is not silent on a behaviour-preserving rewrite of the source")
+        return 2
     return 0
 
 
